@@ -192,7 +192,7 @@ m("c19-fit-on-all-environments", ["C19"], SE, "                    Y = pd.DataFr
   "                    Y = pd.DataFrame(np.vstack(self._data)[:, i])\n                    X = pd.DataFrame(np.vstack(self._data)[:, sorted(parents)])")
 m("c19-drf-sample-uniform-weights", ["C19"], "drf/code.py", "                  ids = np.random.choice(range(Y.shape[0]), 1, p=weights[i, :])[0]", "                  ids = np.random.choice(range(Y.shape[0]), 1)[0]", note="ignores the forest weights: value no longer depends on the parents")
 m("c19-ordering-index-order", ["C19"], SE, "            for i in self._ordering:", "            for i in range(self.p):", note="children generated before their parents: queries use zeros")
-m("c19-data-not-copied", ["C19", "C14"], SE, "        self._data = copy.deepcopy(data)", "        self._data = data")
+m("c19-data-not-copied", ["C14"], SE, "        self._data = copy.deepcopy(data)", "        self._data = data")
 
 # ---- C13
 m("c13-nd-seed-falsy", ["C13"], ND, "        np.random.seed(random_state) if random_state is not None else None\n        return np.random.multivariate_normal", "        np.random.seed(random_state) if random_state else None\n        return np.random.multivariate_normal", note="needs random_state = 0")
@@ -205,3 +205,18 @@ m("c13-lganm-sample-memoised", ["C13"], "sempler/lganm.py", "        if not popu
 m("c13-lganm-ctor-means-global", ["C13"], "sempler/lganm.py", "            self.means = rng.uniform(means[0], means[1], size=self.p)", "            self.means = np.random.uniform(means[0], means[1], size=self.p)")
 m("c13-intervention-targets-global-choice", ["C13"], GEN, "            intervention = list(rng.choice(list(remaining_targets), size=sizes[i], replace=False))", "            intervention = list(np.random.choice(list(remaining_targets), size=sizes[i], replace=False))", note="only the without-replacement branch")
 m("c13-remove-edges-seed-falsy", ["C13"], U, "    A = A.astype(bool).astype(int)\n    rng = np.random.default_rng(random_state)\n    edges = directed_edges(A)", "    A = A.astype(bool).astype(int)\n    rng = np.random.default_rng(random_state or None)\n    edges = directed_edges(A)", note="needs random_state = 0")
+
+# ---- C14
+m("c14-lganm-sample-no-copy-W", ["C14"], L, "        W = self.W.copy()\n", "        W = self.W\n", note="a do-intervention then zeroes a column of the model's own W")
+m("c14-lganm-ctor-no-copy", ["C14"], L, "        self.W = W.copy()\n", "        self.W = W\n", note="later changes to the caller's W reach the model")
+m("c14-lganm-ctor-variances-no-copy", ["C14"], L, "            self.variances = variances.copy()", "            self.variances = variances")
+m("c14-anm-ctor-no-copy", ["C14"], A_, "        self.A = deepcopy(A)", "        self.A = A")
+m("c14-anm-noise-list-shared", ["C14"], A_, "        self.noise_distributions = deepcopy(noise_distributions)", "        self.noise_distributions = noise_distributions")
+m("c14-marginal-returns-self", ["C14"], ND, "        X = np.atleast_1d(X)\n        # Compute marginal mean/variance", "        X = np.atleast_1d(X)\n        if len(X) == self.p and (X == np.arange(self.p)).all():\n            return self\n        # Compute marginal mean/variance")
+m("c14-nd-ctor-no-copy", ["C14"], ND, "        self.mean = mean.copy()\n        self.covariance = covariance.copy()", "        self.mean = mean\n        self.covariance = covariance")
+m("c14-maximally-orient-in-place", ["C14"], U, "    P = P.copy()\n    # Repeatedly apply meek rules until no edges can be oriented", "    # Repeatedly apply meek rules until no edges can be oriented")
+m("c14-imec-discards-from-caller-set", ["C14"], U, "    if check_chain and is_chain_graph(A):\n        return chain_graph_IMEC(A, I)", "    I -= set(i for i in list(I) if len(adj(i, A)) == 0)\n    if check_chain and is_chain_graph(A):\n        return chain_graph_IMEC(A, I)", note="isolated targets are dropped from the caller's own set")
+m("c14-topological-ordering-in-place", ["C14"], U, "    A = A.copy()\n    sinks = ", "    sinks = ", note="Kahn's algorithm consumes the caller's matrix")
+m("c14-all-dags-returns-input", ["C14"], U, "        return np.array([pdag.copy()])", "        return pdag[None, :, :]", note="result is a view of the argument when there is nothing to orient")
+m("c14-conditional-caches-on-self", ["C14"], ND, "        cov_y = utils.matrix_block(self.covariance, Y, Y)", "        self._last = (Y, X)\n        cov_y = utils.matrix_block(self.covariance, Y, Y)", note="a query leaves state behind on the model")
+m("c14-lganm-shift-accumulates", ["C14"], L, "        variances = self.variances.astype(float)\n        means = self.means.astype(float)", "        variances = self.variances.astype(float)\n        means = self.means = self.means.astype(float)", note="shift interventions are then added to the model's own means")
